@@ -192,6 +192,22 @@ func boundedBits(v ssa.Value, depth int) int {
 			return l
 		}
 		return full
+	case *ssa.Parameter:
+		// an unexported function's parameter is as wide as what its callers pass
+		if paramArgs != nil {
+			if args := paramArgs(x); len(args) > 0 {
+				m := 0
+				for _, a := range args {
+					if b := boundedBits(a, depth+1); b > m {
+						m = b
+					}
+				}
+				if m < full {
+					return m
+				}
+			}
+		}
+		return full
 	case *ssa.Phi:
 		m := 0
 		for _, e := range x.Edges {
@@ -207,9 +223,46 @@ func boundedBits(v ssa.Value, depth int) int {
 	return full
 }
 
+// paramArgs gives, for a parameter of an unexported function all of whose
+// uses are static calls inside the analysed packages, the arguments passed.
+var paramArgs func(*ssa.Parameter) []ssa.Value
+
 func (c *Ctx) cod14() {
 	fns := append([]*ssa.Function{}, c.funcs...)
 	fns = append(fns, c.testFuncs()...)
+	paramArgs = func(pr *ssa.Parameter) []ssa.Value {
+		f := pr.Parent()
+		if f == nil || f.Object() == nil || f.Object().Exported() {
+			return nil
+		}
+		idx := -1
+		for i, q := range f.Params {
+			if q == pr {
+				idx = i
+			}
+		}
+		// (no use as a value: every use is a call)
+		var out []ssa.Value
+		for _, g := range fns {
+			for _, b := range g.Blocks {
+				for _, ins := range b.Instrs {
+					if ci, ok := ins.(ssa.CallInstruction); ok && ci.Common().StaticCallee() == f {
+						if idx < len(ci.Common().Args) {
+							out = append(out, ci.Common().Args[idx])
+						}
+						continue
+					}
+					for _, op := range ins.Operands(nil) {
+						if *op == ssa.Value(f) {
+							return nil
+						}
+					}
+				}
+			}
+		}
+		return out
+	}
+	defer func() { paramArgs = nil }()
 	n, wide := 0, 0
 	for _, s := range c.narrowSites(fns) {
 		n++
